@@ -1,0 +1,42 @@
+//go:build verif
+
+// Verification hook (add-only, compiled only with -tags verif): re-exports the
+// unexported constructors of the vxlan / ipip / no-encap managers so that the
+// C43 correspondence harness under /verif can drive the REAL routeManager with
+// a mock route table.  Nothing here changes behaviour.
+
+package intdataplane
+
+import (
+	dpsets "github.com/projectcalico/calico/felix/dataplane/ipsets"
+	"github.com/projectcalico/calico/felix/netlinkshim"
+	"github.com/projectcalico/calico/felix/routetable"
+	"github.com/projectcalico/calico/lib/logrusr"
+)
+
+// VerifC43Manager is what the harness needs from each of the three managers.
+type VerifC43Manager interface {
+	OnUpdate(protoBufMsg any)
+	CompleteDeferredWork() error
+}
+
+// VerifC43NewVXLAN returns a real vxlanManager and its OnParentDeviceUpdate hook and a parent-device-known probe.
+func VerifC43NewVXLAN(ipsetsDP dpsets.IPSetsDataplane, rt routetable.Interface, fdb VXLANFDB, device string,
+	mtu int, cfg Config, nl netlinkshim.Interface) (VerifC43Manager, func(string) bool, func() bool) {
+	m := newVXLANManagerWithShims(ipsetsDP, rt, fdb, device, 4, mtu, cfg, logrusr.NewSummarizer("verif"), nl)
+	return m, m.routeMgr.OnParentDeviceUpdate, func() bool { return m.routeMgr.parentDevice != "" }
+}
+
+// VerifC43NewIPIP returns a real ipipManager and its OnParentDeviceUpdate hook and a parent-device-known probe.
+func VerifC43NewIPIP(rt routetable.Interface, device string, mtu int, cfg Config,
+	nl netlinkshim.Interface) (VerifC43Manager, func(string) bool, func() bool) {
+	m := newIPIPManagerWithShims(rt, device, 4, mtu, cfg, logrusr.NewSummarizer("verif"), nl)
+	return m, m.routeMgr.OnParentDeviceUpdate, func() bool { return m.routeMgr.parentDevice != "" }
+}
+
+// VerifC43NewNoEncap returns a real noEncapManager and its OnParentDeviceUpdate hook and a parent-device-known probe.
+func VerifC43NewNoEncap(rt routetable.Interface, cfg Config,
+	nl netlinkshim.Interface) (VerifC43Manager, func(string) bool, func() bool) {
+	m := newNoEncapManagerWithSims(rt, 4, cfg, logrusr.NewSummarizer("verif"), nl)
+	return m, m.routeMgr.OnParentDeviceUpdate, func() bool { return m.routeMgr.parentDevice != "" }
+}
